@@ -194,7 +194,10 @@ def run(run):
         jobs = []
         cli_pairs = []
         for n in range(1, maxn + 1):
-            res = fm94.gen_run(wd, 'MC_c10_n%d' % n, templates, subset_counts=(n,), seeds=((r + n) % 5,), fmax=1 if n > 2 else 2, slack=0)
+            # editions rotate with n; every identification field at the top of its range for odd n (year of the century 100,
+            # two-octet centres, category 255, ...): "identification unchanged" is observable only where a field is not 0
+            res = fm94.gen_run(wd, 'MC_c10_n%d' % n, templates, subset_counts=(n,), seeds=((r + n) % 5,), fmax=1 if n > 2 else 2, slack=0,
+                               editions=((4, 3, 2)[(n + seed()) % 3],), identv=n % 2)
             run.add_tlc(res, 'FM94 produce, %d subsets' % n)
             behs = [b for b in res.iter_emitted() if not b['err']]
             # every request on a rotating sample of messages, every message with a rotating sample of requests
